@@ -162,7 +162,28 @@ def run(ctx):
                 res.violations.append(vlib.Violation(
                     "the table renders %s with the wrong prefix system or numeral" % sym, {"request": req, "value": v[idx]},
                     expected=want, observed=got))
-    # the rendering is a function of the value alone: the same numerals and the same table under any locale
+    # the rendering is a function of the value alone: not of what was rendered before it by the same process (descending
+    # magnitudes, jumps of several prefixes, both systems interleaved) ...
+    seqs = []
+    for s_ in ("metric", "binary"):
+        for hi, lo in ((5000000, 500), (2**60, 1023), (10**15, 1), (2**40 + 7, 138), (999999999999, 1001), (2**64 - 1, 0), (1536 * 2**20, 1536)):
+            seqs += ["fmt %s %d" % (s_, hi), "fmt %s %d" % (s_, lo), "fmt %s %d" % (s_, hi), "fmt %s %d" % ("binary" if s_ == "metric" else "metric", lo)]
+    shuffled = [r[0] for r in reqs[::max(1, len(reqs) // 3000)]]
+    rng.shuffle(shuffled)
+    seqs += shuffled
+    got_seq = vlib.batch(ctx["bins"]["api"], seqs)
+    single = dict(zip([r[0] for r in reqs], api))
+    missing = [q for q in seqs if q not in single]
+    if missing:
+        single.update(zip(missing, vlib.batch(ctx["modelrun"], missing)))     # the model is a function of the value by construction
+    for q, g in zip(seqs, got_seq):
+        res.case(("order", q, len(res.violations)), True) if False else None
+        if g != single[q]:
+            res.violations.append(vlib.Violation("the rendering of a number depends on what was rendered before it", {"request": q, "sequence_head": seqs[:8]},
+                                                 expected=single[q], observed=g))
+            break
+    res.coverage_extra["order_independence_requests"] = len(seqs)
+    # ... nor of the locale: the same numerals and the same table under any locale
     import scanprops as SP
     sample = [r[0] for r in reqs[::max(1, len(reqs) // 400)]] + treqs[:4]
     base = vlib.batch(ctx["bins"]["api"], sample)
